@@ -15,6 +15,13 @@ is transcribed from `protocols/gossipsub/src/behaviour.rs`:
   3. otherwise (first receipt; we are subscribed: `self.mesh.contains_key(topic)`) the message is
      handed to the application (`Event::Message{propagation_source: u,..}`) and, since
      `validate_messages` is off, `forward_msg(id, raw, Some(u), ∅)` is called.
+  With `validate_messages` ON the message is NOT forwarded at step 3: it stays in the `mcache`
+  unvalidated with an (initially empty) set `originating_peers`; every later duplicate from `w`
+  runs `self.mcache.observe_duplicate(id, w)` which inserts `w` into that set while the entry is
+  unvalidated.  The application answers with `report_message_validation_result(id, u, verdict)`
+  (l. 954): `Accept` → `mcache.validate(id)` hands back `originating_peers` and
+  `forward_msg(id, raw, Some(u), originating_peers)` runs; `Reject`/`Ignore` → `mcache.remove(id)`,
+  nothing is forwarded; no entry → `false`, nothing happens.
 * `forward_msg` (l. 2954): `recipient_peers` = every explicit / floodsub peer subscribed to the
   topic and every `mesh[topic]` peer `p` with
   `Some(p) != propagation_source && !originating_peers.contains(p) && Some(p) != message.source`,
@@ -42,6 +49,8 @@ structure Cfg where
   recips : List Node
   /-- `message.source` (`Some(author)` when signing, `None` when anonymous) -/
   source : Option Node
+  /-- `config.validate_messages()` of each node -/
+  validate : Node → Bool := fun _ => false
 
 /-- `HashSet` semantics: each element once (first occurrences dropped, order irrelevant). -/
 def uniq : List Node → List Node
@@ -56,6 +65,24 @@ def keep (cfg : Cfg) (u : Node) (p : Node) : Bool :=
 def recipients (cfg : Cfg) (v u : Node) : List Node :=
   uniq ((cfg.fwd v).filter (keep cfg u))
 
+/-- `recipient_peers` of `forward_msg(id, raw, Some(u), orig)` called from
+`report_message_validation_result(.., Accept)`: additionally `!originating_peers.contains(p)`. -/
+def recipientsV (cfg : Cfg) (v u : Node) (orig : List Node) : List Node :=
+  uniq ((cfg.fwd v).filter fun p => keep cfg u p && !orig.contains p)
+
+/-- the application's `MessageAcceptance` -/
+inductive Verdict where
+  | accept | reject | ignore
+  deriving DecidableEq, Repr
+
+/-- history events, in chronological order -/
+inductive Ev where
+  /-- `handle_received_message(raw, u)` ran on node `v` (whatever it then did with the copy) -/
+  | recvd (v u : Node)
+  /-- node `v` called `send_message(w, Publish)` -/
+  | sent (v w : Node)
+  deriving DecidableEq, Repr
+
 structure State where
   /-- nodes whose `duplicate_cache` contains the id -/
   seen : List Node
@@ -65,8 +92,15 @@ structure State where
   delivered : List (Node × Node)
   /-- log of every `send_message(to, Publish)`: (from, to) -/
   sent : List (Node × Node)
+  /-- messages awaiting the application's verdict: node ↦ (first sender, `originating_peers`) —
+  the unvalidated `mcache` entries -/
+  held : List (Node × (Node × List Node)) := []
+  /-- nodes whose application rejected / ignored the message -/
+  dropped : List Node := []
+  /-- every reception and every send, in the order they happened -/
+  hist : List Ev := []
 
-/-- what one reception did -/
+/-- what one step did -/
 inductive Out where
   /-- first receipt: delivered to the application and forwarded to these peers -/
   | first (fwd : List Node)
@@ -76,6 +110,14 @@ inductive Out where
   | selfOrigin
   /-- the schedule named a link with nothing in flight: no-op -/
   | noflight
+  /-- first receipt in validation mode: delivered to the application, held for its verdict -/
+  | hold
+  /-- `Accept`: forwarded to these peers -/
+  | forwarded (fwd : List Node)
+  /-- `Reject` / `Ignore`: removed from the cache, never forwarded -/
+  | dropped
+  /-- a verdict for a message that is not awaiting one: `false`, nothing happens -/
+  | noheld
   deriving DecidableEq, Repr
 
 /-- `Behaviour::publish` on node `cfg.pub` -/
@@ -83,7 +125,13 @@ def publish (cfg : Cfg) : State :=
   { seen := [cfg.pub]
     flight := cfg.recips.map fun p => (cfg.pub, p)
     delivered := []
-    sent := cfg.recips.map fun p => (cfg.pub, p) }
+    sent := cfg.recips.map fun p => (cfg.pub, p)
+    hist := cfg.recips.map fun p => Ev.sent cfg.pub p }
+
+/-- `mcache.observe_duplicate(id, u)` on node `v`: only an unvalidated entry records the sender -/
+def noteDup (held : List (Node × (Node × List Node))) (v u : Node) :
+    List (Node × (Node × List Node)) :=
+  held.map fun h => if h.1 = v then (h.1, h.2.1, u :: h.2.2) else h
 
 /-- node `v` receives the copy in flight on link `u → v` (`handle_received_message`). -/
 def recv (cfg : Cfg) (s : State) (l : Node × Node) : State × Out :=
@@ -91,25 +139,65 @@ def recv (cfg : Cfg) (s : State) (l : Node × Node) : State × Out :=
   let v := l.2
   if (u, v) ∈ s.flight then
     let fl := s.flight.erase (u, v)
+    let hi := s.hist ++ [Ev.recvd v u]
     if cfg.source = some v ∧ u ≠ v then
-      ({ s with flight := fl }, .selfOrigin)
+      ({ s with flight := fl, hist := hi }, .selfOrigin)
     else if v ∈ s.seen then
-      ({ s with flight := fl }, .dup)
+      ({ s with flight := fl, held := noteDup s.held v u, hist := hi }, .dup)
+    else if cfg.validate v = true then
+      ({ s with seen := v :: s.seen, flight := fl, delivered := (v, u) :: s.delivered,
+                held := (v, (u, [])) :: s.held, hist := hi }, .hold)
     else
       let r := recipients cfg v u
-      ({ seen := v :: s.seen
-         flight := fl ++ r.map fun p => (v, p)
-         delivered := (v, u) :: s.delivered
-         sent := s.sent ++ r.map fun p => (v, p) }, .first r)
+      ({ s with seen := v :: s.seen
+                flight := fl ++ r.map fun p => (v, p)
+                delivered := (v, u) :: s.delivered
+                sent := s.sent ++ r.map fun p => (v, p)
+                hist := hi ++ r.map fun p => Ev.sent v p }, .first r)
   else (s, .noflight)
 
+/-- the application of node `v` calls `report_message_validation_result(id, first sender, a)` -/
+def verdict (cfg : Cfg) (s : State) (v : Node) (a : Verdict) : State × Out :=
+  match s.held.lookup v with
+  | none => (s, .noheld)
+  | some (u, orig) =>
+    let held' := s.held.filter fun h => h.1 != v
+    if a = .accept then
+      let r := recipientsV cfg v u orig
+      ({ s with held := held'
+                flight := s.flight ++ r.map fun p => (v, p)
+                sent := s.sent ++ r.map fun p => (v, p)
+                hist := s.hist ++ r.map fun p => Ev.sent v p }, .forwarded r)
+    else
+      ({ s with held := held', dropped := v :: s.dropped }, .dropped)
+
+/-- one scheduled event: a reception or an application verdict -/
+inductive Op where
+  | recv (u v : Node)
+  | verdict (v : Node) (a : Verdict)
+  deriving DecidableEq, Repr
+
+def step (cfg : Cfg) (s : State) : Op → State × Out
+  | .recv u v => recv cfg s (u, v)
+  | .verdict v a => verdict cfg s v a
+
 /-- state after a schedule -/
-def run (cfg : Cfg) (sched : List (Node × Node)) : State :=
-  Machine.exec (recv cfg) (publish cfg) sched
+def run (cfg : Cfg) (sched : List Op) : State :=
+  Machine.exec (step cfg) (publish cfg) sched
 
 /-- outputs of a schedule -/
-def outs (cfg : Cfg) (sched : List (Node × Node)) : List Out :=
-  (Machine.run (recv cfg) (publish cfg) sched).2
+def outs (cfg : Cfg) (sched : List Op) : List Out :=
+  (Machine.run (step cfg) (publish cfg) sched).2
+
+/-- no copy in flight and no message awaiting a verdict -/
+def State.quiescent (s : State) : Prop := s.flight = [] ∧ s.held = []
+
+/-- **the temporal no-echo predicate** over a history: scanning from the oldest event with the
+receptions seen so far, no send `v → w` happens after a reception `v ← w`. -/
+def noEcho : List (Node × Node) → List Ev → Prop
+  | _, [] => True
+  | r, .recvd v u :: t => noEcho ((v, u) :: r) t
+  | r, .sent v w :: t => (v, w) ∉ r ∧ noEcho r t
 
 /-! ## The forwarding graph and executable reachability -/
 
@@ -149,55 +237,97 @@ def specPub (cfg : Cfg) : Option String :=
     | some x => if x != cfg.pub && cfg.recips.contains x then some "echo_source" else none
     | none => none
 
-/-- clause check for one reception at `v` from `u` with observed outcome `o`; `got` = nodes whose
-application already received the id. -/
-def specRecv (cfg : Cfg) (got : List Node) (u v : Node) (o : Out) : Option String :=
+/-- receptions `(v, u)` of a history, oldest first -/
+def rcvdOf : List Ev → List (Node × Node)
+  | [] => []
+  | .recvd v u :: t => (v, u) :: rcvdOf t
+  | .sent _ _ :: t => rcvdOf t
+
+/-- does `v` send to a peer it has a recorded reception from? -/
+def echoes (rc : List (Node × Node)) (v : Node) (r : List Node) : Bool :=
+  r.any fun w => rc.contains (v, w)
+
+def toSource (cfg : Cfg) (r : List Node) : Bool :=
+  match cfg.source with
+  | some x => r.contains x
+  | none => false
+
+/-- monitor state: nodes whose application got the id; every observed reception `(v, u)` -/
+structure Mon where
+  got : List Node := []
+  rc : List (Node × Node) := []
+
+/-- clause check for one reception at `v` from `u` with observed outcome `o`. -/
+def specRecv (cfg : Cfg) (m : Mon) (u v : Node) (o : Out) : Option String :=
   match o with
   | .first r =>
-    if got.contains v then some "at_most_once"
+    if m.got.contains v then some "at_most_once"
     else if v == cfg.pub then some "to_publisher"
-    else if r.contains u then some "echo_prop"
-    else if (match cfg.source with | some x => r.contains x | none => false) then some "echo_source"
+    else if echoes (m.rc ++ [(v, u)]) v r then some "echo_prop"
+    else if toSource cfg r then some "echo_source"
+    else none
+  | .hold =>
+    if m.got.contains v then some "at_most_once"
+    else if v == cfg.pub then some "to_publisher"
     else none
   | _ => none
 
-/-- clause check for a send of the id by `u` to `w` that is not the forward of a first receipt (the
-answer to an IWANT; gossip is not part of the model): `w` must not be the peer `u` got the message
-from, nor the message's source. `src` = observed (node, propagation source) pairs. -/
+/-- clause check for the sends of an `Accept`ed message on node `v`: to nobody `v` has received
+the message from (first sender and duplicate senders alike), nor to the source. -/
+def specVerdict (cfg : Cfg) (m : Mon) (v : Node) (o : Out) : Option String :=
+  match o with
+  | .forwarded r =>
+    if echoes m.rc v r then some "echo_prop"
+    else if toSource cfg r then some "echo_source"
+    else none
+  | _ => none
+
+/-- clause check for a send of the id by `u` to `w` that is the answer to an IWANT (gossip is not
+part of the model; `w` asked for it, possibly before it sent us a duplicate): `w` must not be the
+peer `u` FIRST got the message from, nor the message's source. `src` = observed (node, first
+propagation source) pairs. -/
 def specSend (cfg : Cfg) (src : List (Node × Node)) (u w : Node) : Option String :=
   if src.contains (u, w) then some "echo_prop"
   else if cfg.source == some w then some "echo_source"
   else none
 
-def gotAfter (got : List Node) (v : Node) (o : Out) : List Node :=
-  match o with
-  | .first _ => v :: got
-  | _ => got
+def specStep (cfg : Cfg) (m : Mon) (op : Op) (o : Out) : Option String :=
+  match op with
+  | .recv u v => specRecv cfg m u v o
+  | .verdict v _ => specVerdict cfg m v o
 
-/-- monitor over a whole trace `(u, v, outcome)`; `none` = every clause held -/
-def monitor (cfg : Cfg) : List (Node × Node × Out) → List Node → Option String
+def monAfter (m : Mon) (op : Op) (o : Out) : Mon :=
+  match op, o with
+  | .recv _ _, .noflight => m
+  | .recv u v, .first _ => { got := v :: m.got, rc := m.rc ++ [(v, u)] }
+  | .recv u v, .hold => { got := v :: m.got, rc := m.rc ++ [(v, u)] }
+  | .recv u v, _ => { m with rc := m.rc ++ [(v, u)] }
+  | .verdict _ _, _ => m
+
+/-- monitor over a whole trace; `none` = every clause held -/
+def monitor (cfg : Cfg) : List (Op × Out) → Mon → Option String
   | [], _ => none
-  | (u, v, o) :: rest, got =>
-    match specRecv cfg got u v o with
+  | (op, o) :: rest, m =>
+    match specStep cfg m op o with
     | some k => some k
-    | none => monitor cfg rest (gotAfter got v o)
+    | none => monitor cfg rest (monAfter m op o)
 
 def nodupB : List Node → Bool
   | [] => true
   | a :: l => !l.contains a && nodupB l
 
 /-- clause check at quiescence: `dlv` = nodes whose application received the id (with
-multiplicity). -/
-def specQuiet (cfg : Cfg) (dlv : List Node) : Option String :=
+multiplicity); `clean` = no application rejected / ignored the message. -/
+def specQuiet (cfg : Cfg) (clean : Bool) (dlv : List Node) : Option String :=
   if !nodupB dlv then some "at_most_once"
   else if dlv.contains cfg.pub then some "to_publisher"
-  else if premise cfg && sourceOk cfg && !(cfg.nodes.all fun v => v == cfg.pub || dlv.contains v)
+  else if premise cfg && sourceOk cfg && clean && !(cfg.nodes.all fun v => v == cfg.pub || dlv.contains v)
     then some "at_least_once"
   else none
 
 /-- the trace a schedule produces on the model -/
-def trace (cfg : Cfg) : State → List (Node × Node) → List (Node × Node × Out)
+def trace (cfg : Cfg) : State → List Op → List (Op × Out)
   | _, [] => []
-  | s, l :: rest => (l.1, l.2, (recv cfg s l).2) :: trace cfg (recv cfg s l).1 rest
+  | s, op :: rest => (op, (step cfg s op).2) :: trace cfg (step cfg s op).1 rest
 
 end C27
